@@ -39,7 +39,8 @@ theorem hinit_inv (g : GoodChain C.sync ch top) :
     by rw [a5]; exact Nat.le_refl _,
     ⟨fun p hp => by simp [DAView.placed] at hp, fun p hp => by simp [DAView.placed] at hp⟩,
     fun _ e he => by simp at he, ?_, a8, fun m hm => by simp at hm, fun m hm => by simp at hm,
-    by rw [hinc, hh]; exact Nat.le_refl _, by rw [hinc]; exact Nat.le_refl _, metaInc_le_daIncOf C _, ?_, ?_⟩, a5⟩
+    by rw [hinc, hh]; exact Nat.le_refl _, by rw [hinc]; exact Nat.le_refl _, metaInc_le_daIncOf C _, ?_, ?_,
+    P2PInv.fresh (fun wo hm => by simp at hm) (fun d hm => by simp at hm) rfl rfl (by show _ ≤ nd.full.store.height; rw [hh]; exact Nat.le_refl _) g.ihPos⟩, a5⟩
   · intro _ k h1 h2
     have := g.ihPos
     have h3 : k ≤ nd.full.store.height := h2
